@@ -166,11 +166,11 @@ def states_case(ctx, case):
 def st_texts_case():
     text = st.fixed_dictionaries({
         'ref': st.sampled_from(['r1', 'r2', 'r3']), 'lang': st.sampled_from(['en', 'de', 'en-US', None]),
-        'version': st.one_of(st.none(), st.integers(1, 3)), 'width': st.one_of(st.none(), st.sampled_from(WIDTHS)),
+        'version': st.one_of(st.none(), st.integers(0, 3)), 'width': st.one_of(st.none(), st.sampled_from(WIDTHS)),
         'lines': st.integers(1, 3), 'salt': st.integers(0, 99)})
     query = st.fixed_dictionaries({
         'refs': st.one_of(st.none(), st.lists(st.sampled_from(['r1', 'r2', 'r3', 'r9']), min_size=1, max_size=3, unique=True)),
-        'version': st.one_of(st.none(), st.integers(1, 4)),
+        'version': st.one_of(st.none(), st.integers(0, 4)),
         'langs': st.one_of(st.none(), st.lists(st.sampled_from(['en', 'de', 'en-US', 'fr']), min_size=1, max_size=2, unique=True)),
         'widths': st.one_of(st.none(), st.lists(st.sampled_from(WIDTHS), min_size=1, max_size=2, unique=True)),
         'lines': st.one_of(st.none(), st.lists(st.integers(0, 3), min_size=1, max_size=2, unique=True))})
